@@ -9,22 +9,38 @@ spec   : specs/Geometry.tla (shared with C01).  The laws are invariants of the m
          gv_general: rot(n, a) as the Rodrigues vector formula and as a matrix, g = pre . rot(axis, angle) . post . k.
 binding: mode A, four parts
    (i)   laws on code output: for every batch with t = 0 the code is called at sibling settings (other omega, wedge,
-         chi, omegasign - rational and arbitrary): |g| must equal 2 sin(theta)/lambda (theta from the detector position
-         alone) and the oracle's ds for all of them, g(omega2) must be the Rz-rotated g(omega1) (raw C kernels,
-         transform.compute_g_vectors, the numba copy, Ctransform, columnfile fast / slow); the g-vectors of sf2gv and of
-         columnfile.updateGV fast / slow at every sibling setting go back through uncompute_g_vectors and one solution
-         must be the peak's (omega * omegasign, eta), tth its two-theta (code-level round trip, any omega sign, arbitrary
-         wedge / chi).  On EVERY batch (any t): ds = 2 sin(tth/2)/lambda = |g| on the columns of columnfile fast / slow,
-         Ctransform.xyz2geometry, compute_geometry and on (tth, gv) of refinegrains.compute_gv
+         chi, omegasign - rational and arbitrary, and exact zeros): |g| must equal 2 sin(theta)/lambda (theta from the
+         detector position alone, by the arctan recipe and by the arctan-free compute_sinsqth_from_xyz) and the oracle's ds
+         for all of them, g(omega2) must be the Rz-rotated g(omega1) (raw C kernels, transform.compute_g_vectors, the
+         numba copy, Ctransform, columnfile fast / slow); the g-vectors of sf2gv and of columnfile.updateGV fast / slow at
+         every sibling setting go back through uncompute_g_vectors and one solution must be the peak's (omega * omegasign,
+         eta), tth its two-theta (code-level round trip, any omega sign, arbitrary wedge / chi).
+         On EVERY batch (any t, the batch's own wedge / chi / translation with exact zeros where a switch is off - the
+         corner set enumerates all 256 on/off combinations): ds = 2 sin(tth/2)/lambda = |g| = the model's exact
+         2 sin(theta)/lambda on the columns of columnfile fast / slow, Ctransform.xyz2geometry, compute_geometry, (tth, gv)
+         of refinegrains.compute_gv and the numba route (point_by_point.compute_tth_eta, compute_gve);
+         compute_sinsqth_from_xyz / sinth2_sqrt_deriv of the exact lab vector and of the documented chain
+         compute_xyz_lab - compute_grain_origins = the model's sin^2(theta); transform.PixelLUT of the batch's parameters:
+         xyz, tth, eta, k, sinthsq at the lattice's whole pixels = the record's exact values, and on every pixel of the
+         table sinthsq = sin^2(tth/2), |k| = 2 sqrt(sinthsq)/lambda
    (ii)  gv_general.g_to_k and transform.uncompute_g_vectors on every InitInv / InitRaw record: the valid flag must be
          the exact Ewald inequality (not judged on exactly tangent / degenerate vectors), invalid vectors must come
          back without angles, both solutions pushed forward (through an independent transcription of the model and
          through compute_g_vectors) must reproduce g, the generating (omega, eta) must be one of the solutions; the
          `pre` arm (A^T g with pre = A for three exact rotations A) and the default axis +z (opposite angles) must give
          the same flags and solutions (harness-only family: the model is covariant under a rotation of g)
-   (iii) transform.compute_xyz_from_tth_eta on every forward record must return the integer pixel, and
-         compute_tth_eta of the returned pixel the angles; the same ray alone (a one-row batch) must land on the same
-         pixel; rays lying in the detector plane are not judged (the ordinary rays sharing their batch are)
+   (iii) on every forward record (the batch's own translation, wedge, chi): transform.compute_xyz_from_tth_eta must return
+         the pixel, and the returned pixel must give the angles back through every route (transform.compute_tth_eta,
+         Ctransform.sf2xyz + xyz2geometry, columnfile.updateGeometry fast / slow, numba point_by_point.compute_tth_eta);
+         the model's exact g-vector goes through uncompute_g_vectors, the solution at the peak's omega is projected with
+         the grain position and the pixel goes forward again to g through every route (compute_tth_eta + compute_g_vectors,
+         Ctransform.sf2gv, columnfile.updateGV fast / slow, numba compute_gve); the same ray alone (a one-row batch) must
+         land on the same pixel; rays lying in the detector plane are not judged (the ordinary rays sharing their batch are)
+   geometry domain: the lattice's distance classes (60, 70, back-scattering -60, near field 2) put a third of the forward
+         records beyond two-theta = 90 degrees (d_x < 0): every law and route above is judged there (notes rows_beyond_90_*,
+         *_beyond_90; vacuity guards), the inverse machine's quadruples with d_x < 0 carry the exact sin^2(theta) =
+         (|d| - d_x)/(2|d|) (invariant BraggLaw) against compute_sinsqth_from_xyz, sinth2_sqrt_deriv and the arctan recipe
+         (reference and numba); both solutions of (ii) also go forward through the numba compute_g_vectors
    (iv)  every InitAx record (7 unit axes x 4 pre-rotations x wedge, chi, angle x 3 k-vectors): gv_general.wedgemat,
          chimat, wedgechi, chiwedge = the exact matrices; k_to_g (every None / matrix / default-axis arm) = g;
          rotation_axis.rotate_vectors / rotate_vectors_inverse with per-vector angles and through the matrix arm
@@ -55,9 +71,10 @@ def report(chk, J, kind, payload, par):
             chk.violation(what, dict(payload, kind=kind, problems=J.problems[:20]))
 
 
-def do_forward_batch(chk, rt, group, rng, stats, only=None):
+def do_forward_batch(chk, rt, group, rng, stats, only=None, dear=True):
     orc = G.Oracle(group)
     P = orc.P
+    count_geometry(orc, stats)
     if orc.par["t"] == [0, 0, 0] and only in (None, "laws"):
         J = G.judge_laws(rt, orc, rng, stats=stats)
         stats["law_batches"] += 1
@@ -65,20 +82,36 @@ def do_forward_batch(chk, rt, group, rng, stats, only=None):
         stats["worst_ratio"] = max(stats["worst_ratio"], J.worst)
         report(chk, J, "laws", {"records": group}, P)
     if only in (None, "internal"):
-        J = G.judge_internal(rt, orc)
+        J = G.judge_internal(rt, orc, stats=stats, dear=dear)
         stats["internal_law_batches"] += 1
         stats["internal_law_batches_t_nonzero"] += int(orc.par["t"] != [0, 0, 0])
         stats["comparisons"] += J.ncmp
         stats["worst_ratio"] = max(stats["worst_ratio"], J.worst)
         report(chk, J, "internal", {"records": group}, P)
     if only in (None, "project"):
-        J, k = G.judge_project(rt, orc, stats=stats)
+        J, k = G.judge_project(rt, orc, stats=stats, dear=dear)
         stats["projected"] += k
         stats["projection_skipped_ray_in_plane"] += orc.n - k
         stats["comparisons"] += J.ncmp
         stats["worst_ratio"] = max(stats["worst_ratio"], J.worst)
         report(chk, J, "project", {"records": group}, P)
     return orc
+
+
+def count_geometry(orc, stats):
+    """vacuity counters of the geometry domain: rows beyond two-theta = 90 degrees per class of set-up"""
+    nb = int(orc.back.sum())
+    dist = orc.par["dist"]
+    cls = "back_scattering_detector" if dist < 0 else ("near_field_detector" if abs(dist) < 10 else "forward_detector")
+    stats["rows_" + cls] = stats.get("rows_" + cls, 0) + int(orc.ok.sum())
+    stats["rows_beyond_90_" + cls] = stats.get("rows_beyond_90_" + cls, 0) + nb
+    if cls == "near_field_detector" and nb:
+        tilted = any(orc.par["sw"][:3])
+        moved = any(orc.par["t"])
+        key = "rows_beyond_90_near_field_" + ("tilted_and_translated" if tilted and moved else "tilted" if tilted else "translated")
+        stats[key] = stats.get(key, 0) + nb
+    if nb and orc.par["t"] == [0, 0, 0]:
+        stats["law_batches_beyond_90"] = stats.get("law_batches_beyond_90", 0) + 1
 
 
 def do_inverse_batch(chk, rt, batch, stats):
@@ -133,6 +166,10 @@ def observations(rt, stats):
     except Exception as e:
         obs.append("transform.compute_grain_origins / compute_xyz_from_tth_eta need omega as a numpy array: a Python list "
                    "raises %s (undocumented input kind, not judged)" % type(e).__name__)
+    obs.append("transform.compute_sinsqth_from_xyz (PixelLUT.sinthsq) is 0/0 on the beam axis behind the sample (y = z = 0, x < 0: "
+               "NaN, or inf when rounding leaves y, z ~ 1e-16) and loses its digits towards it (error ~ 2e-16 x^2/(y^2+z^2)); its "
+               "docstring names only Q = 0 as undefined.  Not judged within 1e-6 rad of that axis; tolerance widened by "
+               "1 + 4e-6 x^2/(y^2+z^2) beyond two-theta = 90 degrees")
     obs.append("rays lying in the detector plane (no intersection): compute_xyz_from_tth_eta returned exactly (0, 0) for %d of "
                "them (its `norm == 0` arm) and an arbitrary finite pixel for the others (rounding leaves norm ~ 1e-17); not "
                "judged, the ordinary rays of the same batch are" % stats.get("projection_inplane_rows_masked_to_0_0", 0))
@@ -145,8 +182,9 @@ def run(tier, replay=None):
     common.use_shadow(shadow)
     rt = G.Routes(numba_routes=True)
     rng = np.random.default_rng(common.seed())
-    chk.rule = ("forward records as in C01 (sibling-setting laws and the uncompute round trip on the t = 0 batches, route-internal "
-                "laws and projection on all); axis records: unit axis x pre-rotation x (wedge, chi, angle) x Pythagorean k-vector; "
+    chk.rule = ("forward records as in C01, distance classes 60 / 70 / -60 / 2 (sibling-setting laws and the uncompute round trip on "
+                "the t = 0 batches, Bragg laws of every route incl. numba, the arctan-free forms and PixelLUT, and the detector "
+                "round trips through every route on all); axis records: unit axis x pre-rotation x (wedge, chi, angle) x Pythagorean k-vector; "
                 "inverse records: d = Pythagorean "
                 "quadruple x (wedge, chi, omega) with at most two Pythagorean angles x scale {1, 2}, and raw vectors "
                 "(s q/|q|)/lambda, s in {1/2, 1, 3/2, 2, 5/2}, incl. the rotation axis; non-trivial forward = some switch on "
@@ -157,6 +195,8 @@ def run(tier, replay=None):
         "vectors within 1e-6 of tangency are not judged (the float decision is legitimately either way)",
         "tolerances are widened by the condition number of arcsin (1/sqrt(1 - quot^2)) and of the ray / detector-plane "
         "intersection (1/cos(incidence)); rays lying in the detector plane are skipped",
+        "the arctan-free sin^2(theta) is not judged within 1e-6 rad of the beam axis behind the sample (0/0 of the documented "
+        "formula) and its tolerance is widened by 1 + 4e-6 x^2/(y^2+z^2) for x < 0 (cancellation in Q + x sqrt(Q))",
         "an invalid vector may come back as 0 or NaN (|g| > 2/lambda makes the code's arcsin NaN), never as a finite angle",
     ]
     stats = {"comparisons": 0, "worst_ratio": 0.0, "law_batches": 0, "projected": 0, "projection_skipped_ray_in_plane": 0,
@@ -175,6 +215,8 @@ def run(tier, replay=None):
         chk.case(replay)
         chk.sample({"replayed": replay})
         chk.exhaustive = False
+        for k in [k for k, v in stats.items() if isinstance(v, set)]:
+            stats[k] = len(stats[k])
         chk.notes.update(stats)
         return chk.finish()
 
@@ -205,8 +247,12 @@ def run(tier, replay=None):
     t0 = time.time()
     groups = G.group_records(recs)
     for gi, group in enumerate(groups):
+        # every batch of the exhaustive corner set (all 256 on/off combinations x both omega signs) goes through every
+        # route; a parameter set met by the simulation only (mostly one peak) goes through the object-building routes
+        # (columnfile, refinegrains, PixelLUT) on a seeded third, through all the others always
+        dear = len(group) >= 4 or rng.random() < 1 / 3.
         with G.omp_threads(rt, 2):           # small batches: waking 16 threads costs more than the kernel
-            do_forward_batch(chk, rt, group, rng, stats)
+            do_forward_batch(chk, rt, group, rng, stats, dear=dear)
         for r in group:
             p = r["par"]
             chk.case(("fwd", p["sw"], p["flip"], p["sgn"], p["zs"], p["ys"], p["pk"], p["om"]),
@@ -245,6 +291,8 @@ def run(tier, replay=None):
             chk.sample({"axis_record": batch[-1]})
         if len(chk.violations) > 24:
             break
+    for k in [k for k, v in stats.items() if isinstance(v, set)]:
+        stats[k] = len(stats[k])
     chk.notes.update(stats)
     chk.notes["forward_batches"] = len(groups)
     chk.notes["inverse_batches"] = len(batches)
@@ -265,12 +313,31 @@ def run(tier, replay=None):
                   "axis_g_to_k_default_axis"):
             if stats.get(k, 0) < 10:
                 raise common.MachineryError("vacuity: %s = %d" % (k, stats.get(k, 0)))
+        # the geometry domain: two-theta beyond 90 degrees in every class of set-up, for every law and route
+        for k in ("rows_beyond_90_back_scattering_detector", "rows_beyond_90_near_field_tilted",
+                  "rows_beyond_90_near_field_translated", "rows_beyond_90_near_field_tilted_and_translated",
+                  "law_batches_beyond_90", "sinsqth_rows_beyond_90", "lut_pixels_beyond_90", "lut_whole_pixel_rows",
+                  "projected_beyond_90", "g_roundtrip_rows_beyond_90", "inverse_bragg_rows_beyond_90",
+                  "numba_internal_rows_t_nonzero", "g_roundtrip_rows_t_nonzero", "inverse_numba_forward_rows"):
+            if stats.get(k, 0) < 10:
+                raise common.MachineryError("vacuity: %s = %d" % (k, stats.get(k, 0)))
+        # every on/off combination with exact zeros: the numba round trips saw all 224 switch sets with a translation (the
+        # g round trip is not defined where the beam lies along the rotation axis), the inverse machine all four
+        # wedge / chi on/off combinations
+        if stats["projection_numba_switch_sets_t_nonzero"] != 224 or stats["g_roundtrip_numba_switch_sets_t_nonzero"] < 200:
+            raise common.MachineryError("vacuity: numba round trips with a translation on %d / %d of the 224 switch sets" % (
+                stats["projection_numba_switch_sets_t_nonzero"], stats["g_roundtrip_numba_switch_sets_t_nonzero"]))
+        for a in ("on", "exactly 0"):
+            for b in ("on", "exactly 0"):
+                if not stats.get("inverse_batches with wedge %s chi %s" % (a, b)):
+                    raise common.MachineryError("vacuity: no inverse batch with wedge %s chi %s" % (a, b))
         selftest(rt, groups, list(batches.values()), list(abatches.values()))
     return chk.finish()
 
 
 def selftest(rt=None, groups=None, batches=None, abatches=None):
-    """perturbed expectations (Bragg length, round-trip two-theta, projected pixel, validity flag, two-theta, the
+    """perturbed expectations (Bragg length, round-trip two-theta, projected pixel, the angles and the g-vector coming back
+    from the detector, the model's 2 sin(theta)/lambda and sin^2(theta), a PixelLUT entry, validity flag, two-theta, the
     g-vector of the axis machine) must be rejected"""
     if rt is None:
         import sys
@@ -293,12 +360,25 @@ def selftest(rt=None, groups=None, batches=None, abatches=None):
     if abatches:
         if not G.judge_axis(rt, abatches[0])[0].problems and not G.judge_axis(rt, abatches[0], perturb="g")[0].problems:
             raise common.MachineryError("selftest: perturbed axis-machine g accepted")
-    g1 = next(g for g in groups if any(g[0]["par"]["t"]) and G.Oracle(g).cosinc.min() > 0.1)
+    def has_g_roundtrip(g):
+        st = {}
+        G.judge_project(rt, G.Oracle(g), stats=st)
+        return st.get("g_roundtrip_rows", 0) > 0
+    g1 = next(g for g in groups if any(g[0]["par"]["t"]) and G.Oracle(g).cosinc.min() > 0.1 and has_g_roundtrip(g))
     if not G.judge_project(rt, G.Oracle(g1))[0].problems:
-        if not G.judge_project(rt, G.Oracle(g1), perturb="pixel")[0].problems:
-            raise common.MachineryError("selftest: perturbed pixel accepted")
+        for pt in ("pixel", "back", "ground"):
+            if not G.judge_project(rt, G.Oracle(g1), perturb=pt)[0].problems:
+                raise common.MachineryError("selftest: perturbed projection (%s) accepted" % pt)
+    g2 = next(g for g in groups if any(g[0]["par"]["t"]) and G.Oracle(g).back.any() and len(g) >= 4)
+    if not G.judge_internal(rt, G.Oracle(g2)).problems:
+        for pt in ("ds", "ssq", "lut"):
+            if not G.judge_internal(rt, G.Oracle(g2), perturb=pt).problems:
+                raise common.MachineryError("selftest: perturbed Bragg expectation (%s) accepted" % pt)
     b = next(b for b in batches if sum(1 for r in b if r["valid"] and not r["tangent"]) > 2)
     if not G.judge_inverse(rt, b)[0].problems:
         for pt in ("flag", "tth"):
             if not G.judge_inverse(rt, b, perturb=pt)[0].problems:
                 raise common.MachineryError("selftest: perturbed %s accepted" % pt)
+    b = next((b for b in batches if any(r["mode"] == "inv" for r in b)), None)
+    if b is not None and not G.judge_inverse(rt, b)[0].problems and not G.judge_inverse(rt, b, perturb="ssq")[0].problems:
+        raise common.MachineryError("selftest: perturbed sin^2(theta) of the inverse machine accepted")
